@@ -78,6 +78,18 @@ func (r *Ratio) MoveShardToNode(shard *ShardLoadRatio, fromNode string, toNode s
 	}
 }
 
+// UpdateShardEnsemble records the new ensemble of a shard in every node's copy of the shard info.
+func (r *Ratio) UpdateShardEnsemble(namespace string, shardID int64, ensemble []Server) {
+	for iter := r.nodeLoadRatios.Iterator(); iter.Next(); {
+		for shardIter := iter.Value().ShardRatios.Iterator(); shardIter.Next(); {
+			shard := shardIter.Value()
+			if shard.ShardInfo != nil && shard.ShardID == shardID && shard.Namespace == namespace {
+				shard.Ensemble = ensemble
+			}
+		}
+	}
+}
+
 func (r *Ratio) ReCalculateRatios() {
 	iter := r.nodeLoadRatios.Iterator()
 	if !iter.First() {
